@@ -4,6 +4,7 @@ import MiniMcmcVerif.Driver.C05
 import MiniMcmcVerif.Driver.C16
 import MiniMcmcVerif.Driver.C01
 import MiniMcmcVerif.Driver.C18
+import MiniMcmcVerif.Driver.C17
 
 open MiniMcmcVerif MiniMcmcVerif.Driver
 
@@ -15,6 +16,7 @@ def dispatch (line : String) : String :=
   | "c16" :: args => c16 args
   | "c01" :: args => c01 args
   | "c18" :: args => c18 args
+  | "c17" :: args => c17 args
   | _ => "bad-op"
 
 partial def loop (h : IO.FS.Stream) (out : IO.FS.Stream) : IO Unit := do
